@@ -111,34 +111,35 @@ def isoformat(dt: datetime.date | datetime.time | datetime.timedelta) -> str:
     """
     if isinstance(dt, (datetime.date, datetime.time)):
         return dt.isoformat()
-    dur: pendulum.Duration = (
-        dt
-        if isinstance(dt, pendulum.Duration)
-        else pendulum.duration(
-            days=dt.days,
-            seconds=dt.seconds,
-            microseconds=dt.microseconds,
-        )
-    )
+    if dt < datetime.timedelta(0):
+        # Signed duration (ISO 8601-2): the components are those of the magnitude.
+        return f"-{isoformat(-dt)}"
+    if isinstance(dt, pendulum.Duration):
+        years, months = dt.years, dt.months
+        days = dt.weeks * 7 + dt.remaining_days
+        hours, minutes = dt.hours, dt.minutes
+        seconds, microseconds = dt.remaining_seconds, dt.microseconds
+    else:
+        # Integer arithmetic only: float normalization drops microseconds on large deltas.
+        years = months = 0
+        days, microseconds = dt.days, dt.microseconds
+        hours, remainder = divmod(dt.seconds, 3600)
+        minutes, seconds = divmod(remainder, 60)
     datepart = "".join(
-        f"{p}{s}"
-        for p, s in ((dur.years, "Y"), (dur.months, "M"), (dur.remaining_days, "D"))
-        if p
+        f"{p}{s}" for p, s in ((years, "Y"), (months, "M"), (days, "D")) if p
     )
     timepart = "".join(
         f"{p}{s}"
         for p, s in (
-            (dur.hours, "H"),
-            (dur.minutes, "M"),
-            (
-                f"{dur.remaining_seconds}.{dur.microseconds:06}"
-                if dur.microseconds
-                else dur.remaining_seconds,
-                "S",
-            ),
+            (hours, "H"),
+            (minutes, "M"),
+            (f"{seconds}.{microseconds:06}" if microseconds else seconds, "S"),
         )
         if p
     )
+    if datepart and not timepart:
+        # "T" must be followed by a time component.
+        return f"P{datepart}"
     period = f"P{datepart}T{timepart}"
     return period
 
@@ -221,8 +222,15 @@ def dateparse(val: str, t: type[DateTimeT]) -> DateTimeT:
     """
     try:
         # When `exact=False`, the only two possibilities are DateTime and Duration.
-        parsed: pendulum.DateTime | pendulum.Duration = pendulum.parse(val)  # type: ignore[assignment]
+        # A leading sign marks a negative duration (ISO 8601-2), see `isoformat()`.
+        negative = val.startswith("-P")
+        parsed: pendulum.DateTime | pendulum.Duration = pendulum.parse(  # type: ignore[assignment]
+            val[1:] if negative else val
+        )
         normalized = _nomalize_dt(val=val, parsed=parsed, td=t)
+        if isinstance(normalized, pendulum.Duration):
+            normalized = _exact_timedelta(normalized)
+            return -normalized if negative else normalized
         return normalized
     except ValueError:
         if val.isdigit() or val.isdecimal():
@@ -243,6 +251,17 @@ def _nomalize_dt(
     if not isinstance(parsed, td):
         raise ValueError(f"Cannot parse {val!r} as {td.__qualname__!r}")
     return parsed
+
+
+def _exact_timedelta(dur: pendulum.Duration) -> datetime.timedelta:
+    # The properties of a Duration are derived from float seconds, the fields of
+    #   the underlying timedelta are exact.
+    base = datetime.timedelta
+    return base(
+        days=base.days.__get__(dur),
+        seconds=base.seconds.__get__(dur),
+        microseconds=base.microseconds.__get__(dur),
+    )
 
 
 def _normalize_number(*, numval: float, td: type[DateTimeT]) -> DateTimeT:
